@@ -104,16 +104,25 @@ def run_impl(line):
     from crysp.bits import Bits
     t = line.split()
     op, a = t[0], t[1:]
+    def sib():
+        # other Threefish objects come and go between the calls of the line's object: one of each smaller size with its own
+        # key and tweak (built and used), and a construction that is refused (tweak of the wrong size)
+        for n in (32, 64):
+            o = Threefish(bytes(range(1, n + 1)), bytes(range(16, 32)))
+            o.dec(o.enc(bytes(n)))
+        try: Threefish(bytes(32), b'\1' * 15)
+        except Exception as e:
+            if type(e).__name__ == '_Timeout': raise
     def go():
         if op in ('threefish.enc', 'threefish.dec'):
             from props.parts import one_object as OO   # the object has already been used for the opposite operation
-            return hx(OO.used(Threefish(unhx(a[0]), unhx(a[1])), lambda: unhx(a[2]), op[10:]))
+            return hx(OO.used(Threefish(unhx(a[0]), unhx(a[1])), lambda: unhx(a[2]), op[10:], sibling=sib))
         if op == 'threefish.rt':
             k, tw, b = unhx(a[0]), unhx(a[1]), unhx(a[2])
             # ONE Threefish object per chain performs the whole sequence (both orders, repeated calls): props/parts/one_object.py
             from props.parts import one_object as OO
-            r1 = guarded(lambda: OO.chain(Threefish(k, tw), lambda: b, 'enc'))
-            r2 = guarded(lambda: OO.chain(Threefish(k, tw), lambda: b, 'dec'))
+            r1 = guarded(lambda: OO.chain(Threefish(k, tw), lambda: b, 'enc', sibling=sib))
+            r2 = guarded(lambda: OO.chain(Threefish(k, tw), lambda: b, 'dec', sibling=sib))
             return r1 + ';' + r2
         if op == 'threefish.ks':
             o = Threefish(unhx(a[0]), unhx(a[1]))
